@@ -11,6 +11,8 @@ pub(crate) trait BindScope: fmt::Debug + NotObserver {
     fn is_necessary(&self) -> bool;
     fn height(&self) -> i32;
     fn add_node(&self, node: WeakNode);
+    #[cfg(cormacrelf_incremental_rs_verif)]
+    fn verif_height(&self) -> Option<i32>;
 }
 
 #[derive(Clone)]
@@ -72,6 +74,8 @@ impl Scope {
     }
     pub(crate) fn add_node(&self, node: NodeRef) {
         assert!(node.created_in().equals(self));
+        #[cfg(cormacrelf_incremental_rs_verif)]
+        crate::verif::register_node(&node);
         match self {
             Self::Top => {}
             Self::Bind(bind_weak) => {
